@@ -1,14 +1,14 @@
 SPECIFICATION Spec
 CONSTANTS Kinds = {"plain", "mixed"}
-          MixedServerSet = {"none", "rel", "relslash", "relroot", "abs", "absvar", "two", "psfirst", "pslast"}
-          MixedCoreServers = {"none", "rel", "relslash", "relroot", "abs", "absvar", "two", "psfirst", "pslast"}
+          MixedServerSet = {"none", "rel", "relslash", "relroot", "abs", "absvar", "two", "psfirst", "pslast", "relpfx", "abspfx"}
+          MixedCoreServers = {"none", "rel", "relslash", "relroot", "abs", "absvar", "two", "psfirst", "pslast", "relpfx", "abspfx"}
           MixedMethKeys = {"G", "P", "GP"}
           MaxLen = 2
           MaxT = 2
-          ServerSet = {"none", "rel", "relslash", "relroot", "abs", "absvar", "two", "psfirst", "pslast"}
+          ServerSet = {"none", "rel", "relslash", "relroot", "abs", "absvar", "two", "psfirst", "pslast", "relpfx", "abspfx"}
           CoreLen = 2
           CoreT = 2
-          CoreServers = {"none", "rel", "relslash", "relroot", "abs", "absvar", "two", "psfirst", "pslast"}
+          CoreServers = {"none", "rel", "relslash", "relroot", "abs", "absvar", "two", "psfirst", "pslast", "relpfx", "abspfx"}
           Slice = 0
           Seed = 1
 INVARIANTS DesignOK Emit
